@@ -2,7 +2,7 @@
 import ast
 
 from .. import dispatch
-from ..report import AnalysisError, norm
+from ..report import borrow, AnalysisError, norm
 from ..srcmodel import own_nodes, own_statements
 from ..terms import Resolver, alternatives, show, walk
 
@@ -35,6 +35,14 @@ def run(rep, ctx):
         borrow(rep, c10.r3b_result_quantity, ctx, "C10.R3", "C09.R5")
     except AnalysisError as e:
         rep.error("C09.R5", str(e))
+    from . import c10, c04
+    rep.rule("C09.R6", "an Array combined with a plain number goes through the same element-wise pairing and the same database operation as two Arrays, operands in order (shared with C10.R1 / C10.R6); k / x and k // x reach Divide / FloorDivide unchanged (C04.R2)")
+    try:
+        borrow(rep, c10.r1_one_impl, ctx, "C10.R1", "C09.R6")
+        borrow(rep, c10.r6_passthrough, ctx, "C10.R6", "C09.R6")
+        borrow(rep, c04.r2_op_table, ctx, "C04.R2", "C09.R6")
+    except AnalysisError as e:
+        rep.error("C09.R6", str(e))
     rep.not_decided += [
         "numeric results of k OP x",
         "numpy.bool_ and other numpy scalars that are not numpy.number (IsNumber is false for them by design)",
